@@ -441,6 +441,45 @@ P("seed-C19-5", ["C19"], "seeded/C19-5/patch.diff")
 P("seed-C20-5", ["C20"], "seeded/C20-5/patch.diff")
 P("seed-C20-6", ["C20"], "seeded/C20-6/patch.diff")
 
+
+# ------------------------------------------------------------------ round-5 seeds (those the property's own check reports)
+P("seed-C01-8", ["C01"], "seeded/C01-8/patch.diff")
+P("seed-C02-7", ["C02"], "seeded/C02-7/patch.diff")
+P("seed-C02-8", ["C02"], "seeded/C02-8/patch.diff")
+P("seed-C03-7", ["C03"], "seeded/C03-7/patch.diff")
+P("seed-C03-8", ["C03"], "seeded/C03-8/patch.diff")
+P("seed-C04-7", ["C04"], "seeded/C04-7/patch.diff")
+P("seed-C04-8", ["C04"], "seeded/C04-8/patch.diff")
+P("seed-C06-8", ["C06"], "seeded/C06-8/patch.diff")
+P("seed-C07-7", ["C07"], "seeded/C07-7/patch.diff")
+P("seed-C07-8", ["C07"], "seeded/C07-8/patch.diff")
+P("seed-C08-7", ["C08"], "seeded/C08-7/patch.diff")
+P("seed-C08-8", ["C08"], "seeded/C08-8/patch.diff")
+P("seed-C09-7", ["C09"], "seeded/C09-7/patch.diff")
+P("seed-C09-8", ["C09"], "seeded/C09-8/patch.diff")
+P("seed-C10-7", ["C10"], "seeded/C10-7/patch.diff")
+P("seed-C10-8", ["C10"], "seeded/C10-8/patch.diff")
+P("seed-C11-7", ["C11"], "seeded/C11-7/patch.diff")
+P("seed-C11-8", ["C11"], "seeded/C11-8/patch.diff")
+P("seed-C12-7", ["C12"], "seeded/C12-7/patch.diff")
+P("seed-C12-8", ["C12"], "seeded/C12-8/patch.diff")
+P("seed-C13-7", ["C13"], "seeded/C13-7/patch.diff")
+P("seed-C13-8", ["C13"], "seeded/C13-8/patch.diff")
+P("seed-C14-7", ["C14"], "seeded/C14-7/patch.diff")
+P("seed-C14-8", ["C14"], "seeded/C14-8/patch.diff")
+P("seed-C15-7", ["C15"], "seeded/C15-7/patch.diff")
+P("seed-C15-8", ["C15"], "seeded/C15-8/patch.diff")
+P("seed-C16-7", ["C16"], "seeded/C16-7/patch.diff")
+P("seed-C16-8", ["C16"], "seeded/C16-8/patch.diff")
+P("seed-C17-7", ["C17"], "seeded/C17-7/patch.diff")
+P("seed-C17-8", ["C17"], "seeded/C17-8/patch.diff")
+P("seed-C18-7", ["C18"], "seeded/C18-7/patch.diff")
+P("seed-C18-8", ["C18"], "seeded/C18-8/patch.diff")
+P("seed-C19-7", ["C19"], "seeded/C19-7/patch.diff")
+P("seed-C19-8", ["C19"], "seeded/C19-8/patch.diff")
+P("seed-C20-7", ["C20"], "seeded/C20-7/patch.diff")
+P("seed-C20-8", ["C20"], "seeded/C20-8/patch.diff")
+
 # ------------------------------------------------------------------ backward party scan (R-C17-4 / R-C02-5 / R-C01-10)
 _PL = ('                plaintiff = "".join(\n                    str(w) for w in words[max(index - 2, 0) : index]\n                ).lstrip("( ")\n'
        '                citation.metadata.plaintiff = plaintiff.rstrip("( ")\n                # the full span starts where the plaintiff starts\n'
